@@ -469,9 +469,9 @@ impl<'data> TryFrom<CowBytes<'data>> for Frame<'data> {
                 })
             }
             OpCode::Datagram => {
-                check_remaining!(data, size_of::<u8>() + 6);
+                check_remaining!(data, size_of::<u8>() + size_of::<u16>());
                 let host_len = usize::from(data.get_u8());
-                check_remaining!(data, host_len + 6);
+                check_remaining!(data, host_len + size_of::<u16>());
                 let target_port = data.get_u16();
                 let target_host = data.split_to(host_len);
                 Payload::Datagram(DatagramPayload {
